@@ -25,6 +25,25 @@ fn base<D: Dom>(n: usize, variant: usize) -> Vec<R> {
         alphabet::generic(n, variant)
     }
 }
+/// operands no detour through another number type survives (as in C03): integers whose products need nearly the full
+/// width of the type, non-dyadic fractions elsewhere (every float operation on them rounds)
+fn wide<D: Dom>(n: usize, variant: usize) -> Vec<R> {
+    let half_bits: i64 = match D::NAME {
+        "i8" | "u8" => 3,
+        "i16" | "u16" => 6,
+        "i32" | "u32" => 13,
+        "i64" | "u64" | "isize" | "usize" => 28,
+        _ => 0,
+    };
+    if D::INTEGER {
+        let b = 1i64 << half_bits;
+        let pool: [i64; 7] = [b + 1, -(b + 3), b - 1, -(b - 3), b / 2 + 1, -(b / 2 + 3), b + 5];
+        (0..n).map(|i| { let x = pool[(i * (variant + 2) + variant + i / 7) % 7]; (if D::SIGNED { x } else { x.abs() }, 1) }).collect()
+    } else {
+        let dens: [i64; 5] = [3, 7, 9, 11, 13];
+        alphabet::generic(n, variant).iter().enumerate().map(|(i, r)| (r.0, r.1 * dens[(i + variant) % 5])).collect()
+    }
+}
 fn cmp<D: Dom, const N: usize>(ctx: &mut Ctx, k: &str, got: [D; N], exp: [D::M; N]) {
     if exp.iter().all(|m| D::representable(*m)) {
         eq_v::<D, N>(ctx, &key(k), got, exp);
@@ -54,11 +73,18 @@ macro_rules! point_systems {
             rep.cases(
                 concat!("affine/", stringify!($Pt)),
                 D::NAME,
-                &format!("(p,q,v,w): {}; 3 bases (p,q,v,w,a) x <= {k} deviations over {} letters", if full { format!("all over {}^{}", a0.len(), 4 * N) } else { "all 0/+-1 with support <= 3".to_string() }, l.len()),
-                n1 + nb * dev.len(),
+                &format!("(p,q,v,w): {}; 3 bases (p,q,v,w,a) x <= {k} deviations over {} letters; 6 sets of wide integers resp. non-dyadic fractions", if full { format!("all over {}^{}", a0.len(), 4 * N) } else { "all 0/+-1 with support <= 3".to_string() }, l.len()),
+                n1 + nb * dev.len() + 6,
                 Guard::states(50).distinct(20),
                 |i, ctx| {
-                    let r: Vec<R> = if i < n1 {
+                    let r: Vec<R> = if i >= n1 + nb * dev.len() {
+                        // six operand sets of wide integers / non-dyadic fractions
+                        let j = i - n1 - nb * dev.len();
+                        let mut r = wide::<D>(4 * N, j);
+                        r.push([(2, 1), (3, 1), (5, 2)][j % 3]);
+                        if D::INTEGER { let last = r.len() - 1; r[last] = [(2, 1), (3, 1), (5, 1)][j % 3]; }
+                        r
+                    } else if i < n1 {
                         let mut r: Vec<R> = if full {
                             alphabet::decode(i, &dims).iter().map(|&j| a0[j]).collect()
                         } else {
@@ -95,7 +121,12 @@ macro_rules! point_systems {
                     if ge(q, p) {
                         cmp::<D, N>(ctx, "sub_point", $va(cq - cp), model::vsub(mq, mp));
                         // p + (q - p) = q
-                        same::<D, N>(ctx, "law/p+(q-p)=q", $pa(cp + (cq - cp)), q);
+                        // (an equation of numbers where the arithmetic is exact; closeness where every operation rounds)
+                        if D::EXACT || D::INTEGER {
+                            same::<D, N>(ctx, "law/p+(q-p)=q", $pa(cp + (cq - cp)), q);
+                        } else {
+                            cmp::<D, N>(ctx, "law/p+(q-p)=q", $pa(cp + (cq - cp)), model::vadd(mp, model::vsub(mq, mp)));
+                        }
                     }
                     let mut t = cp;
                     t += cv;
@@ -204,10 +235,16 @@ macro_rules! point_systems {
                     lists.push(alphabet::decode(idx, &vec![4; len]));
                 }
             }
+            // longer lists (a summation in blocks, a path that starts at some length): 40 lists of length 5..12
+            for len in 5..=12usize {
+                for v in 0..5usize {
+                    lists.push((0..len).map(|j| (j * (v + 1) + v + j / 3) % 4).collect());
+                }
+            }
             rep.cases(
                 concat!("centroid/", stringify!($Pt)),
                 D::NAME,
-                "every list of length 1..4 over a 4-point alphabet (340 lists)",
+                "every list of length 1..4 over a 4-point alphabet (340 lists) and 40 lists of length 5..12",
                 lists.len(),
                 Guard::states(340).distinct(20),
                 |i, ctx| {
@@ -252,7 +289,8 @@ fn homogeneous<D: Dom>(rep: &mut Report) {
             vec![(1, 1)]
         }
     } else {
-        vec![(-3, 1), (-1, 2), (1, 3), (2, 1), (7, 1), (1, 1)]
+        // ... and a ladder of tiny and huge homogeneous factors: a cut-off on |w| ("w is numerically zero") shows there
+        vec![(-3, 1), (-1, 2), (1, 3), (2, 1), (7, 1), (1, 1), (1, 1 << 12), (-1, 1 << 24), (1, 1 << 40), (1 << 24, 1), (-3, 1 << 30)]
     };
     let l = letters::<D>();
     let dims: Vec<usize> = vec![l.len(); 3];
